@@ -291,6 +291,11 @@ psRes_t psPkcs8ParsePrivBin(psPool_t *pool,
             psTraceCrypto("Couldn't parse PKCS#8 param iterationCount\n");
             return PS_FAILURE;
         }
+        if (icount < 1 || icount > PS_PBE_MAX_ITERATIONS)
+        {
+            psTraceCrypto("Unreasonable PKCS#8 iterationCount\n");
+            return PS_FAILURE;
+        }
         /* Get encryptionScheme */
         if (getAsnAlgorithmIdentifier(&p, (int32) (end - p), &oi, &plen)
             < 0)
